@@ -9,6 +9,8 @@ from . import scene as S
 from . import c01
 
 BASES = ("PlasmaModel", "BeamModel", "BeamAttenuator", "Plasma", "Beam", "Laser")
+VIAS = {"P_models": ["assign", "set", "clear_add"], "B_models": ["assign", "set", "clear_add"],
+        "P_comp": ["set", "clear_add", "add"]}
 _LOG = []
 _PATCHED = False
 
@@ -51,13 +53,14 @@ def record(args, ctx):
             continue
         p = rng.choice(params)
         v = rng.choice([1, 2, 3] if p in ("P_models", "B_models", "L_models") else [1] if p in S.REPOINT else [1, 2])
+        via = rng.choice(VIAS.get(p, ["assign"]))
         del _LOG[:]
         try:
-            S.apply(sc, {"op": "set", "p": p, "v": v})
+            S.apply(sc, {"op": "set", "p": p, "v": v, "via": via})
         except Exception as ex:          # noqa: BLE001
             viol.append({"sig": f"set.{p}:raised-{type(ex).__name__}", "detail": f"{repr(ex)[:200]} after {json.dumps(trace)[:300]}"})
             break
-        trace.append({"op": "set", "p": p, "v": v, "ran": sorted(set(_LOG))})
+        trace.append({"op": "set", "p": p, "v": v, "via": via, "ran": sorted(set(_LOG))})
         if step == n - 1 or rng.random() < 0.15:
             d = c01._diff(S.observe(sc), c01.fresh_obs(sc.cfg))
             if d:
